@@ -425,7 +425,7 @@ def check_kani(prop, tier, seed, only=None, jobs=None, extra_results=None):
                        [], time.time() - t0, 0, {"inconclusive": ["build failed"]})
         return 2, {}
     log(f"[{prop}] built harness crate in {bt:.0f}s; running {len(hs)} harness(es), tier={tier}")
-    jobs = jobs or int(os.environ.get("VERIF_JOBS", "5" if tier == "quick" else "5"))
+    jobs = jobs or int(os.environ.get("VERIF_JOBS", "7" if tier == "quick" else "5"))
     # memory is the limit (R7): never start more solver processes than fit into ~56 GB of address-space limits
     max_mem = max([(h.mem_gb or (12 if tier == "quick" else 24)) for h in hs])
     jobs = max(1, min(jobs, 56 // max_mem))
